@@ -23,8 +23,7 @@ def release_on_begin(ctx, rule='C10.release-on-begin'):
         return [bad(rule, '%s | writer never releases pending pages' % bf.qual,
                     'the writer begin path never calls the release role: pages freed by earlier transactions are never moved to the free set and the file grows with every commit',
                     where='%s:%d' % (bf.file, bf.line))]
-    ok_blocks = [bb for bb in li.reach for s in bf.blocks[bb]['stmts']
-                 if s['k'] == 'assign' and s['p']['l'] == 0 and s['rv']['k'] == 'agg' and s['rv'].get('variant') == 'Ok']
+    ok_blocks = c03.ok_return_blocks(bf, li.reach)
     avoid = {bb for bb, t in sites}
     seen = set([0]) - avoid
     todo = list(seen)
@@ -45,14 +44,20 @@ def release_on_begin(ctx, rule='C10.release-on-begin'):
         for a in t['args']:
             l = op_local(a)
             if l is not None and bf.locals[l]['ty'] == 'freelist::Freelist':
-                used.add(du.root_of(l, through_calls=False))
+                used.add(du.trace_root(l, within=li.reach)[0])
+    from util import aggregates_of
+    for b2, si, st in aggregates_of(bf, 'TxFreelist'):     # the constructor may have been folded into the begin function
+        for o in st['rv']['ops']:
+            l = op_local(o)
+            if l is not None and bf.locals[l]['ty'] == 'freelist::Freelist':
+                used.add(du.trace_root(l, within=li.reach)[0])
     for bb, t in sites:
         recv = set()
         for a in t['args']:
             l = op_local(a)
             if l is not None and ('freelist::Freelist' in bf.locals[l]['ty']):
                 pts = du.points[l]
-                recv |= {r for (r, p) in pts} or {du.root_of(l, through_calls=False)}
+                recv |= {du.trace_root(r, within=li.reach)[0] for (r, p) in pts} or {du.trace_root(l, within=li.reach)[0]}
         if used and recv and (recv & used):
             res.append(ok(rule, 'release at %s acts on the free list handed to the transaction' % bf.loc(bb), sites=1))
         else:
@@ -67,11 +72,11 @@ def reuse_before_extend(ctx, rule='C10.reuse-before-extend'):
         txalloc, alloc = ctx.need('tx-alloc-role', 'alloc-role')
     except AnchorError as e:
         return [unresolved(rule, str(e))]
-    fn = txalloc
+    fn = ctx.A.xf(txalloc)       # module-private helpers folded in
     sites = calls_to_fn(ctx.facts, fn, alloc)
     if not sites:
         return [bad(rule, '%s | free set never consulted' % fn.qual, 'the allocation wrapper never asks the free set for pages', where='%s:%d' % (fn.file, fn.line))]
-    adv = [(bb, si, where) for bb, si, where, is_add, helper in c02.advance_sites(ctx, fn)]
+    adv = [(bb, si, where) for bb, si, where, is_add, helper in c02.advance_sites(ctx, txalloc)]
     f = floor(rule, 'stores advancing the high-water mark', len(adv), 1)
     if f:
         return [f]
@@ -145,6 +150,7 @@ def deregister(ctx, rule='C10.deregister'):
         (dr,) = ctx.need('<TxInner as Drop>::drop')
     except AnchorError as e:
         return [unresolved(rule, str(e))]
+    dr = ctx.x(dr)
     li, hs, toks = c03.registry_holders(ctx, dr)
     calls = c03.registry_calls(ctx, dr, hs) if hs else []
     rem = [(bb, t) for bb, t, n, m in calls if m and n == 'remove']
@@ -179,7 +185,7 @@ def blocking_registry(ctx, rule='C10.deregister'):
                 res.append(bad(rule, '%s | registry lock taken with try_lock' % fn.qual,
                                '%s takes the open-reader registry lock at %s with a non-blocking try_lock: when the lock is busy the critical section is skipped, so a dropped reader stays '
                                'registered forever (its snapshot\'s pages are never released) or a new reader is never registered' % (fn.qual, fn.loc(bb)), where=fn.loc(bb)))
-    f = floor(rule, 'acquisitions of the reader-registry lock', n, 2)
+    f = floor(rule, 'acquisitions of the reader-registry lock', n, 1)
     if f:
         res.append(f)
     if not any(not r.ok for r in res):
@@ -331,6 +337,7 @@ def run(ctx, tier):
     results += c03.register(ctx, rule='C10.register')
     import c06
     results += c06.shared_freelist(ctx, rule='C10.shared-freelist')
+    results += c03.release_sites(ctx, rule='C10.release-site')
     return dict(
         results=results, stats=dict(ctx.stats),
         explanation=(
